@@ -11,7 +11,8 @@ from ..rules.common import run_flags
 
 LEVEL = 'other'
 TECHNIQUE = ('static: regular-language inclusion for the line splitter of both input implementations, sibling agreement of the '
-             'line index construction, def-use dataflow of the ParseInfo fields, placement of the memo key after whitespace')
+             'line index construction, exhaustive finite-domain interpretation of build_line_cache/lineinfo/lineat/poscol over {letter, LF, CR}, '
+             ' def-use dataflow of the ParseInfo fields, placement of the memo key after whitespace')
 LEVEL_TEXT = ('Decides from the source: both input implementations split lines with str.splitlines(keepends) or with a regex '
               'whose language is included in `[^\\r\\n]*(\\r\\n|\\r|\\n)|[^\\r\\n]+` (no line contains an inner LF/CR/CRLF break), '
               'build their offset->line cache with the one shared builder and read it under the same guards; every ParseInfo '
